@@ -225,6 +225,12 @@ def isDerefFn : String → Bool
   | "_decref" | "decref" => true           -- the wrappers' own methods (checked as `refApi`)
   | _ => false
 
+/-- dereference functions that FREE a node whose count drops to zero, and then release its
+children in turn -/
+def isRecursiveDerefFn : String → Bool
+  | "Cudd_RecursiveDeref" | "Cudd_RecursiveDerefZdd" | "Cudd_IterDerefBdd" => true
+  | _ => false
+
 /-- bookkeeping of one node value along a path -/
 structure NodeSt where
   id : Nat
@@ -235,6 +241,7 @@ structure NodeSt where
   wraps : Nat
   null : Bool       -- the path assumes the node is NULL / invalid
   exposed : Bool    -- was unprotected (fresh, no reference, no handle) while a later call may have collected it
+  madeFrom : List Nat := []   -- the node arguments of the call that produced it (it refers to them)
 deriving Repr, Inhabited
 
 abbrev PathSt := List NodeSt
@@ -281,7 +288,7 @@ def produceStep (loc : List String) (float : Bool) (s : PathSt) (x : Nat) (fn : 
       let s' := if k == .borrowed then s else
         s.map fun n => if n.protected_ then n else { n with exposed := true }
       let init : Int := if k == .owned then 1 else 0
-      .ok (s'.set ⟨x, k, init, 0, 0, 0, false, false⟩)
+      .ok (s'.set ⟨x, k, init, 0, 0, 0, false, false, args⟩)
 
 /-- Run the events of one path.  `float` selects the additional check that an unprotected
 fresh node is never used after a later node-creating call. -/
@@ -290,7 +297,7 @@ def runPath (loc : List String) (float : Bool) (returnsNode : Bool) : PathSt →
   | s, ev :: rest =>
     match ev with
     | .param x _ =>
-      runPath loc float returnsNode (s.set ⟨x, .borrowed, 0, 0, 0, 0, false, false⟩) rest
+      runPath loc float returnsNode (s.set ⟨x, .borrowed, 0, 0, 0, 0, false, false, []⟩) rest
     | .produce x fn args =>
       match produceStep loc float s x fn args with
       | .error v => v
@@ -308,7 +315,17 @@ def runPath (loc : List String) (float : Bool) (returnsNode : Bool) : PathSt →
       | none => .bad "deref of an untracked node" x
       | some n =>
         if n.held + (n.wraps : Int) < 1 then .bad "deref without a reference to give back" x else
-        runPath loc float returnsNode (s.set { n with held := n.held - 1, derefs := n.derefs + 1 }) rest
+        -- a RECURSIVE dereference frees what only `x` kept alive: like a node-creating call it
+        -- exposes every node that is unprotected at this moment — a fresh result that may be a
+        -- descendant of, or equal to, the released temporary.  Not exposed: a fresh node that was
+        -- made FROM `x` (a parent built by the call that took `x` as an argument holds its own
+        -- reference on `x`, so `x` does not die)
+        let s1 := s.set { n with held := n.held - 1, derefs := n.derefs + 1 }
+        let s2 := if float && isRecursiveDerefFn fn then
+            s1.map fun k =>
+              if k.protected_ || k.id == x || k.madeFrom.contains x then k else { k with exposed := true }
+          else s1
+        runPath loc float returnsNode s2 rest
     | .wrap x =>
       match s.node? x with
       | none => .bad "wrap of an untracked node" x
